@@ -2,12 +2,14 @@ package filesystem
 
 import (
 	"bufio"
+	"crypto"
 	"errors"
 	"hash"
 	"os"
 	"time"
 
 	"github.com/go-git/go-git/v6/plumbing/format/index"
+	plumbhash "github.com/go-git/go-git/v6/plumbing/hash"
 	"github.com/go-git/go-git/v6/storage/filesystem/dotgit"
 	"github.com/go-git/go-git/v6/utils/ioutil"
 	"github.com/go-git/go-git/v6/utils/trace"
@@ -19,6 +21,17 @@ type IndexStorage struct {
 	h        hash.Hash
 	cache    IndexCache
 	skipHash bool
+}
+
+// newHash returns a fresh hash of the same kind as s.h. The index decoder
+// and encoder reset and feed the hash they are handed, so a single instance
+// must not be shared by concurrent Index and SetIndex calls: the checksum
+// of one call would absorb the bytes of the other.
+func (s *IndexStorage) newHash() hash.Hash {
+	if s.h != nil && s.h.Size() == crypto.SHA256.Size() {
+		return plumbhash.New(crypto.SHA256)
+	}
+	return plumbhash.New(crypto.SHA1)
 }
 
 // SetIndex writes the index to disk and updates the cache.
@@ -60,7 +73,7 @@ func (s *IndexStorage) writeIndex(idx *index.Index) (err error) {
 		encOpts = append(encOpts, index.WithSkipHash())
 	}
 
-	e := index.NewEncoder(bw, s.h, encOpts...)
+	e := index.NewEncoder(bw, s.newHash(), encOpts...)
 	return e.Encode(idx)
 }
 
@@ -114,7 +127,7 @@ func (s *IndexStorage) Index() (i *index.Index, err error) {
 		decOpts = append(decOpts, index.WithSkipHash())
 	}
 
-	d := index.NewDecoder(f, s.h, decOpts...)
+	d := index.NewDecoder(f, s.newHash(), decOpts...)
 	err = d.Decode(idx)
 	if err != nil {
 		return nil, err
